@@ -600,8 +600,10 @@ class OpsMixin:
             t = E.simp(v.t)
             if z3.is_int_value(t):
                 return VStr(str(t.as_long()))
+            self.run.opaque_strings = True      # the text of a symbolic number is an uninterpreted function of it (never compared with CPython's)
             return VStr(_fn("str_of_int", z3.IntSort(), z3.StringSort())(v.t))
         if isinstance(v, VReal):
+            self.run.opaque_strings = True
             return VStr(_fn("str_of_real", z3.RealSort(), z3.StringSort())(v.t))
         if isinstance(v, VBool):
             return VStr(z3.If(v.t, z3.StringVal("True"), z3.StringVal("False")))
@@ -610,11 +612,14 @@ class OpsMixin:
         if isinstance(v, VEnum):
             return VStr(z3.Concat(z3.StringVal(v.ename + "."), self.enum_name(v).t))
         if isinstance(v, VAny):
+            self.run.opaque_strings = True
             return VStr(_fn("str_of_any", AnySort, z3.StringSort())(v.t))
         if isinstance(v, VExc):
+            self.run.opaque_strings = True
             if v.msg is not None and isinstance(v.msg, VStr):
                 return v.msg
             return VStr(z3.Const(self.run.fresh_name("str(exc)"), z3.StringSort()))
+        self.run.opaque_strings = True
         return VStr(z3.Const(self.run.fresh_name("str"), z3.StringSort()))
 
     def e_JoinedStr(self, node, frame):
@@ -629,6 +634,7 @@ class OpsMixin:
                         self.eval(p.format_spec, frame)
                     if isinstance(v, VStr) and p.conversion == -1:
                         pass
+                    self.run.opaque_strings = True
                     parts.append(z3.Const(self.run.fresh_name("fmt"), z3.StringSort()))
                 else:
                     parts.append(self.to_str(v).t)
